@@ -114,7 +114,7 @@ def _run_jobs(jobs):
         return [_job(j) for j in jobs]
 
 
-def _mutation_sample(ctx, prop: str, base: set, limit: int = 240) -> dict:
+def _mutation_sample(ctx, prop: str, base: set, limit: int = 120) -> dict:
     import random
     import sys
 
